@@ -208,6 +208,15 @@ class CallMixin:
         # ---- struct
         if ext in STRUCT_FUNCS:
             return self._struct(st, e, STRUCT_FUNCS[ext])
+        # ---- methods of a module-level struct.Struct("fmt") object
+        if isinstance(f, ast.Attribute) and f.attr in ("pack", "unpack", "unpack_from") and not cs.targets:
+            fmt = self._struct_object_fmt(f.value, fi)
+            if fmt is not None:
+                synth = ast.Call(func=ast.Name(id=f.attr, ctx=ast.Load()), args=[ast.Constant(value=fmt)] + list(e.args), keywords=list(e.keywords))
+                ast.copy_location(synth, e)
+                ast.fix_missing_locations(synth)
+                self.__dict__.setdefault("_synth_struct", {})[id(synth)] = e
+                return self._struct(st, synth, f.attr)
         # ---- builtins by name
         if isinstance(f, ast.Name) and not cs.targets and not self.is_local(f.id):
             r = self._builtin(st, e, f.id)
@@ -532,6 +541,29 @@ class CallMixin:
                     if n is not None:
                         return Lin.const(base.size) + n.scale(one.size - base.size), None
         return None, None
+
+    def _struct_object_fmt(self, node: ast.AST, fi) -> Optional[str]:
+        """Format string of `NAME` / `mod.NAME` when it is bound at module level to Struct("...")."""
+        m = fi.module
+        name = None
+        if isinstance(node, ast.Name) and not self.is_local(node.id):
+            r = self.prog.resolve_name(m, node.id)
+            if r and r[0] == "const":
+                m, name = r[1]
+        elif isinstance(node, ast.Attribute) and isinstance(node.value, ast.Name):
+            r = self.prog.resolve_name(m, node.value.id)
+            if r and r[0] == "module" and node.attr in r[1].assigns:
+                m, name = r[1], node.attr
+        if name is None:
+            return None
+        v = m.assigns.get(name)
+        if isinstance(v, ast.Call) and unparse(v.func) in ("Struct", "struct.Struct") and v.args:
+            try:
+                fmt = self.prog.const_eval(v.args[0], m, None)
+            except Unknown:
+                return None
+            return fmt if isinstance(fmt, str) else None
+        return None
 
     def _struct(self, st: St, e: ast.Call, which: str):
         if not e.args:
